@@ -1192,6 +1192,11 @@ func (db *DB) allocate(txid common.Txid, count int) (*common.Page, error) {
 		if err != nil {
 			return nil, fmt.Errorf("mmap size calculation error: %w", err)
 		}
+		if nextMmapSize < db.datasz {
+			// The map is never shrunk, so grow() sizes the file by the
+			// current map size (e.g. a large InitialMmapSize).
+			nextMmapSize = db.datasz
+		}
 		if runtime.GOOS == "windows" {
 			// nextAllocSize may not exactly match nextMmapSize.
 			// On Windows, this mismatch may cause the file size to slightly exceed maxSize,
